@@ -49,6 +49,7 @@ type tsyncScript struct {
 	Divergent    bool     `json:"divergent"`         // the first phase thread installs a private filter (policy B) before the load
 	PriorSync    bool     `json:"prior_sync"`        // the loader first loads another policy (B) WITH thread-sync: every thread then has one filter; the load under test follows
 	Uname26      bool     `json:"uname26"`           // the child runs under the UNAME26 personality: uname(2) reports release 2.6.x
+	TracerRetval uint32   `json:"seccomp_answered_by_tracer_with"` // the parent runs the child under a tracer that answers every seccomp(2) call with this positive result without executing it (how the kernel names the thread that refused a thread-sync load): nothing is installed
 	BigPolicy    bool     `json:"big_policy"`        // a deny-list policy of 41 groups that compiles to more than 4096 instructions: the kernel cannot take it as one program
 	LogPolicy    bool     `json:"log_policy"`        // the policy under test also has a group and a default with the LOG *action* (which has nothing to do with the log flag)
 	Unpriv       bool     `json:"unprivileged"`      // the child runs as uid 65534: without no_new_privs the kernel refuses (EACCES), and a nil result is only acceptable if every thread is covered
